@@ -92,6 +92,22 @@ builders:
           - name: name
             parameters:
               - constant: {type: {kind: scalar, scalar: {scalar_kind: string}}, value: rex}
+  - add_factory:
+      by_name: Cat
+      factory:
+        name: Tom
+        options:
+          - name: lives
+            parameters:
+              - constant: {type: {kind: scalar, scalar: {scalar_kind: int64}}, value: 9}
+  - add_factory:
+      by_name: A
+      factory:
+        name: Default
+        options:
+          - name: k2
+            parameters:
+              - constant: {type: {kind: scalar, scalar: {scalar_kind: string}}, value: y}
 options:
   - rename:
       by_name: Dog.name
